@@ -11,7 +11,7 @@ from vlib.rec import REC
 ID = "C03"
 LEVEL = "exploration"
 DECIDING = ["C03.adjacency", "C03.border_len", "C03.center_distances", "C03.areas"]
-RULE = ("grids (algorithm, N) for ico, cube3D, randomS; quick N in {4..40,42,43,60,92,98,99,100,162,163}, thorough every N in 4..300 plus "
+RULE = ("grids (algorithm, N) for ico, cube3D, randomS; quick N in {4..40,42,43,60,92,98,99,100,162,163} + randomS_110/210 (shortest unambiguous arcs) + 6 seed-dependent N per algorithm from 44..300, thorough every N in 4..300 plus "
         "386,387,642,643; for each grid the four getters are called (adjacency twice, in different orders) and every pair (i,j) is judged. "
         "Non-trivial = N>=5 (at least one non-adjacent pair possible); distinct by (algorithm, N)")
 ASSUMPTIONS = ["arcs whose oracle length lies in [1e-10, 1e-5] are ambiguous (not judged, counted); lengths/angles/areas compared at 1e-9 absolute",
@@ -64,6 +64,14 @@ def drive(F3, alg, N, order=0):
 def shards(tier, seed):
     Ns = QUICK_N if tier == "quick" else THOROUGH_N
     jobs = [(alg, N) for alg in ALGS for N in Ns]
+    if tier == "quick":
+        import random
+        rng = random.Random(seed)
+        # grids with the shortest unambiguous border arcs found by the thorough sweep (9.2e-5 and 1.7e-5 rad): a vertex-merging
+        # tolerance that is too coarse removes exactly these neighbours; plus a seed-dependent sample of other N
+        jobs += [("randomS", 110), ("randomS", 210)]
+        jobs += [(alg, N) for alg in ALGS for N in rng.sample(range(44, 301), 6)]
+        jobs = sorted(set(jobs))
     nsh = 16 if tier == "quick" else 48
     # balance by N^3
     jobs.sort(key=lambda t: -t[1])
